@@ -265,6 +265,13 @@ func checkC14HeaderAs(w *World, r *Report, ri *recInfo, id string) {
 						}
 					}
 				}
+				if !info && !(notWritten && sets) {
+					// one forward call may serve both kinds of status; judge it path by path
+					if okPaths, desc := ri.headerForwardPathwise(fn, x, recv); okPaths {
+						ru.Pass("header forward in "+FuncName(fn), w.Pos(x.Pos()), "on every path: nothing written yet; informational statuses leave the state alone, final ones set size = 0 first", desc)
+						return
+					}
+				}
 				switch {
 				case info:
 					ru.Check("informational forward in "+FuncName(fn), w.Pos(x.Pos()), "1xx (not 101) forwarded without state change, only while nothing was written", notWritten && !sets, fmt.Sprintf("size==notWritten=%v changesSize=%v", notWritten, sets))
@@ -297,6 +304,16 @@ func checkC14HeaderAs(w *World, r *Report, ri *recInfo, id string) {
 						}
 					}
 				}
+				if !paired && !positive {
+					// the forward may sit in a later block shared with the informational case
+					eachInstr(fn, func(y ssa.Instruction) {
+						if c, ok := y.(*ssa.Call); ok && c.Common().IsInvoke() && c.Common().Method.Name() == "WriteHeader" && ri.isEmbedded(fn, c.Common().Value) {
+							if okp, _ := ri.headerForwardPathwise(fn, c, recv); okp {
+								paired = true
+							}
+						}
+					})
+				}
 				ru.Check("size = 0 in "+FuncName(fn), w.Pos(x.Pos()), "size leaves notWritten only with a forwarded header or a positive byte count", paired || positive, fmt.Sprintf("forwardedHeader=%v positiveCount=%v", paired, positive))
 			}
 		})
@@ -316,6 +333,15 @@ func checkC14HeaderAs(w *World, r *Report, ri *recInfo, id string) {
 			}
 		}
 	})
+	if !okStatus {
+		eachInstr(wh, func(y ssa.Instruction) {
+			if c, ok := y.(*ssa.Call); ok && c.Common().IsInvoke() && c.Common().Method.Name() == "WriteHeader" && ri.isEmbedded(wh, c.Common().Value) && len(c.Common().Args) == 1 && c.Common().Args[0] == ssa.Value(wh.Params[1]) {
+				if okp, _ := ri.headerForwardPathwise(wh, c, ssa.Value(wh.Params[0])); okp {
+					okStatus = true // every final path stores status = code before forwarding that code
+				}
+			}
+		})
+	}
 	ru.Check("status recorded in (*recorder).WriteHeader", w.Pos(wh.Pos()), "the recorded status is the code forwarded", okStatus, fmt.Sprint(okStatus))
 	// implicit header in Write/WriteString uses the recorded status
 	for _, name := range []string{"Write", "WriteString"} {
@@ -657,4 +683,120 @@ func checkC14Helpers(w *World, r *Report) {
 		okR, why = lo && hi && c.Call.Args[3] == ssa.Value(rd.Params[1]), fmt.Sprintf("code>=300:%v code<=308:%v", lo, hi)
 	})
 	ru.Check("(*cTx).Redirect", w.Pos(rd.Pos()), "http.Redirect is reached only for 300 <= code <= 308, with that code", okR, why)
+}
+
+// headerForwardPathwise judges a forward of WriteHeader that is shared by the informational and the final case: on
+// every acyclic path from the entry to the call, the state must be "nothing written" and either the three informational
+// tests hold and size is not assigned, or one of them fails and size = 0 is assigned before the call.
+func (ri *recInfo) headerForwardPathwise(fn *ssa.Function, call *ssa.Call, recv ssa.Value) (bool, string) {
+	paths := pathsBetween(fn.Blocks[0], call.Block(), 128)
+	if len(paths) == 0 || len(paths) >= 128 {
+		return false, ""
+	}
+	ninfo, nfinal := 0, 0
+	for _, path := range paths {
+		notWritten := false
+		lo, hi, n101 := 0, 0, 0 // 1 true, -1 false
+		setsSize, setsStatus, infeasible := false, false, false
+		for j, b := range path {
+			for _, in := range b.Instrs {
+				if in == ssa.Instruction(call) {
+					break
+				}
+				if st, ok := in.(*ssa.Store); ok {
+					if bb, f, ok := fieldOfAddr(st.Addr); ok && f == ri.size && bb == recv {
+						if k, ok := constInt(st.Val); ok && k == 0 {
+							setsSize = true
+						} else {
+							return false, ""
+						}
+					}
+					if bb, f, ok := fieldOfAddr(st.Addr); ok && f == ri.status && bb == recv {
+						if _, isParam := st.Val.(*ssa.Parameter); isParam {
+							setsStatus = true
+						}
+					}
+				}
+			}
+			if j+1 >= len(path) {
+				break
+			}
+			f, ok := edgeFact(b, path[j+1])
+			if !ok {
+				continue
+			}
+			// a condition that is a phi of short-circuit evaluation: take the value that flows in along this path
+			for depth := 0; depth < 4; depth++ {
+				if u, isNot := f.Cond.(*ssa.UnOp); isNot && u.Op == token.NOT {
+					f = Fact{u.X, !f.Val}
+					continue
+				}
+				ph, isPhi := f.Cond.(*ssa.Phi)
+				if !isPhi {
+					break
+				}
+				resolved := false
+				for k := j; k >= 1; k-- {
+					if path[k] == ph.Block() {
+						for pi, pred := range ph.Block().Preds {
+							if pred == path[k-1] {
+								f = Fact{ph.Edges[pi], f.Val}
+								resolved = true
+							}
+						}
+						break
+					}
+				}
+				if !resolved {
+					break
+				}
+			}
+			if cb, isConst := f.Cond.(*ssa.Const); isConst {
+				if bv, ok := constBool(cb); ok && bv != f.Val {
+					infeasible = true
+				}
+				continue
+			}
+			if v, ok := ri.sizeFact(fn, f); ok && v {
+				notWritten = true
+			}
+			if bo, ok := f.Cond.(*ssa.BinOp); ok {
+				if _, isParam := bo.X.(*ssa.Parameter); isParam {
+					k, _ := constInt(bo.Y)
+					sign := map[bool]int{true: 1, false: -1}[f.Val]
+					switch {
+					case bo.Op == token.GEQ && k == 100:
+						lo = sign
+					case bo.Op == token.LSS && k == 100:
+						lo = -sign
+					case bo.Op == token.LEQ && k == 199, bo.Op == token.LSS && k == 200:
+						hi = sign
+					case bo.Op == token.GTR && k == 199, bo.Op == token.GEQ && k == 200:
+						hi = -sign
+					case bo.Op == token.NEQ && k == 101:
+						n101 = sign
+					case bo.Op == token.EQL && k == 101:
+						n101 = -sign
+					}
+				}
+			}
+		}
+		if infeasible {
+			continue
+		}
+		if !notWritten {
+			return false, ""
+		}
+		isInfo := lo == 1 && hi == 1 && n101 == 1
+		isFinal := lo == -1 || hi == -1 || n101 == -1
+		switch {
+		case isInfo && !setsSize:
+			ninfo++
+		case isFinal && !isInfo && setsSize && setsStatus:
+			nfinal++
+		default:
+			return false, ""
+		}
+	}
+	return ninfo > 0 && nfinal > 0, fmt.Sprintf("%d informational path(s) without state change, %d final path(s) with size = 0", ninfo, nfinal)
 }
